@@ -785,6 +785,10 @@ class Verifier(Engine):
                 mem = self.member(v.ty.args[0], "__len__")
                 if mem:
                     return self.call_function(mem[0], "%s.__len__" % mem[1], v, [], {})
+            if isinstance(v, V) and v.ty.kind == "opt" and v.ty.args[0].is_heap_container:
+                # len(x) with x: Optional[container]: a TypeError unless x is not None here
+                self.oblige("TypeError: len() of None", "safety", z3.Not(self.equal(v, NONE_V)))
+                v = V(v.ty.args[0], T.opt_val(v.ty, v.t) if not v.ty.args[0].is_reflike else v.t)
             return V(T.INT, self.seq_len(v))
         if name == "str":
             return self.to_str(args[0]) if args else mk_str("")
